@@ -7,6 +7,7 @@ import (
 	"os"
 	"path/filepath"
 	"regexp"
+	"runtime/debug"
 	"sort"
 	"strconv"
 	"strings"
@@ -198,7 +199,8 @@ func (c *Checker) explore(ex *Exec, fn *ssa.Function) []Outcome {
 			return outs
 		}
 		if strings.HasPrefix(need, "global:") {
-			if msg := ex.RunGlobalInit(strings.TrimPrefix(need, "global:")); msg != "" {
+			msg := ex.RunGlobalInitDeep(strings.TrimPrefix(need, "global:"), 0)
+			if msg != "" {
 				return []Outcome{{St: st, Kind: OAbort, Abort: "UNSUPPORTED: initialiser of " + need + " failed: " + msg}}
 			}
 			continue
@@ -465,6 +467,9 @@ func runProperty(plan *PropertyPlan, tier string, seed int, verbose bool) int {
 			defer func() { <-sem }()
 			defer func() {
 				if r := recover(); r != nil {
+					if debugPanics {
+						debugPrintf("engine panic: %v\n%s\n", r, debug.Stack())
+					}
 					results[i] = &HarnessResult{Spec: specs[i], Broken: fmt.Sprintf("engine panic: %v", r), Reached: map[string]bool{}}
 				}
 			}()
